@@ -133,5 +133,18 @@ def main(argv=None):
     return report.run_check(args, plan_items, _work, PLAN)
 
 
+def _main_guarded(argv):
+    try:
+        return main(argv)
+    except SystemExit:
+        raise
+    except BaseException as e:  # a crash of the machinery is never a verdict
+        import traceback
+
+        traceback.print_exc()
+        print(f"harness error: {type(e).__name__}: {e}", file=sys.stderr)
+        return 2
+
+
 if __name__ == "__main__":
-    sys.exit(main(sys.argv))
+    sys.exit(_main_guarded(sys.argv))
